@@ -242,12 +242,20 @@ def distance (kb : Nat) (mul : Nat × Nat) : Nat := kb * 1000 * mul.1 / mul.2
 
 /-! ### SUPERIORS -/
 
-/-- every stored rule's superiors name stored rules and contain those rules' superiors -/
-def supClosed (rules : List Rule) : Bool :=
-  rules.all fun r => r.superiors.all fun n =>
-    match rules.find? (·.name == n) with
+/-- what SUPERIORS promises for one rule, given the rules stored before it: every superior is one
+    of those rules, and that rule's own superiors are superiors of this rule too -/
+def supOk (earlier : List Rule) (r : Rule) : Bool :=
+  r.superiors.all fun n =>
+    match earlier.find? (·.name == n) with
     | some p => p.superiors.all (r.superiors.contains ·)
     | none => false
+
+def supClosedFrom (earlier : List Rule) : List Rule → Bool
+  | [] => true
+  | r :: rest => supOk earlier r && supClosedFrom (earlier ++ [r]) rest
+
+/-- every rule's superiors are earlier rules and are closed transitively -/
+def supClosed (rules : List Rule) : Bool := supClosedFrom [] rules
 
 /-- transitive closure of the *declared* superiors, by unfolding declarations `fuel` times -/
 def reach (decl : String → List String) : Nat → String → List String
